@@ -180,11 +180,11 @@ def cleanStep : Option RawVal → R Unit
 /-- `uptodate.extend(self._init_getargs())` when `getargs` is not empty: Python looks up `uptodate.extend` first
     (AttributeError on a non-empty tuple), then evaluates `_init_getargs()` (InvalidTask on a malformed entry) -/
 def getargsStep (d : TDict) : R (List Name) :=
-  let es := getargsEntries (get d .getargs)
-  if es.isEmpty then .ok []
+  if (getargsEntries (get d .getargs)).isEmpty then .ok []
   else match get d .uptodate with
     | some (.tuple (_ :: _)) => .error (.crash .attributeError)   -- tuple has no `extend`
-    | _ => if es.any (fun e => e.2.isNone) then .error .invalidTask else .ok (es.filterMap (·.2))
+    | _ => if (getargsEntries (get d .getargs)).any (fun e => e.2.isNone) then .error .invalidTask
+           else .ok ((getargsEntries (get d .getargs)).filterMap (·.2))
 
 def strName : Option RawVal → R Name
   | some (.str s) => .ok s
